@@ -554,6 +554,25 @@ class Judge:
                 self.viol("nested_bad_leaf_rejected", spec, {"field": first})
             except Exception:
                 pass
+        # a value whose fields are a strict superset / subset of the spec's children does not have "the structure that matches"
+        import collections
+
+        names = list(vals)
+        Sup = collections.namedtuple("Sup", names + ["one_field_too_many"])
+        self.ev("nested_extra_field_rejected")
+        try:
+            spec.validate(Sup(**vals, one_field_too_many=np.zeros((), np.float32)))
+            self.viol("nested_extra_field_rejected", spec, {"extra": "one_field_too_many"})
+        except Exception:
+            pass
+        if len(names) > 1:
+            Sub = collections.namedtuple("Sub", names[:-1])
+            self.ev("nested_missing_field_rejected")
+            try:
+                spec.validate(Sub(**{k: vals[k] for k in names[:-1]}))
+                self.viol("nested_missing_field_rejected", spec, {"missing": names[-1]})
+            except Exception:
+                pass
         self.ev("nested_non_structure_rejected")
         try:
             spec.validate(np.zeros(3))
